@@ -662,6 +662,7 @@ def write_evidence(prop, tier, seed, spec, reg, repo, results, obligations, disc
             "assumed_contracts_exercised": sorted(kinds),
             "functions_under_contract": funcs,
             "covers_reached": len(covers),
+            "helpers_inlined_without_contract": sorted({k for r in results for k in (r["stats"].get("auto_inlined") or [])}),
             "functions_reused_from_result_cache": sum(1 for r in results if r.get("cached")),
             "result_cache_rule": "a function's VC verdicts are reused only when the sha256 of every repository source file, of the verifier and contract sources, the function key, tree and solver budget are all identical to the run that produced them (quick tier only; thorough always re-proves)",
             "back_ends": sorted({s for o in obligations.values() for s in o["solver"]}),
